@@ -98,6 +98,14 @@ impl Reporter {
         }
     }
 
+    /// (key, what) of every violation class recorded so far, known or not
+    pub fn classes(&self) -> Vec<(String, String, bool)> {
+        let g = self.inner.lock().unwrap();
+        let mut v: Vec<(String, String, bool)> = g.violations.iter().map(|(k, (_, x))| (k.clone(), x.what.clone(), false)).collect();
+        v.extend(g.known_hits.iter().map(|(k, (_, w))| (k.clone(), w.clone(), true)));
+        v
+    }
+
     pub fn violation_count(&self) -> u64 {
         self.inner.lock().unwrap().violations.values().map(|v| v.0).sum()
     }
